@@ -267,7 +267,7 @@ impl Scenario for C12 {
             reference: if rng.chance(0.5) { Some((rng.frange(-60., 60.), rng.frange(-170., 170.))) } else { None },
             yields: rng.chance(0.8),
             sched: SchedSpec::generate(rng, 8 * n as u32 + 32),
-            relative_time: rng.chance(0.04),
+            relative_time: rng.chance(0.06),
         }
     }
     fn execute(&self, plan: &C12Plan) -> Outcome<C12Plan> {
@@ -663,7 +663,9 @@ pub fn execute(plan: &C12Plan) -> Outcome<C12Plan> {
 
     // decode the frames (real decoder); undecodable ones never reach the loop
     // (dedup only forwards decodable frames)
-    let epoch0 = if plan.relative_time { 0.0 } else { exec::EPOCH_S as f64 };
+    // (relative time: from 0; a third of those runs instead from 2100-01-01, later
+    // than any host clock this will run on)
+    let epoch0 = if plan.relative_time { if plan.records.len() % 3 == 0 { 4_102_444_800.0 } else { 0.0 } } else { exec::EPOCH_S as f64 };
     let mut msgs: Vec<(u64, TimedMessage)> = Vec::new();
     let mut undecodable = 0u64;
     // a record that cannot be rendered as JSON shows no address at all: the
